@@ -261,7 +261,7 @@ int main(int argc, char** argv) {
     std::sort(bm.begin(), bm.end());
     bm.erase(std::unique(bm.begin(), bm.end()), bm.end());
   }
-  const unsigned MMAX = quick ? 999 : 9999;
+  const unsigned MMAX = quick ? 4999 : 19999;
   const int XMAX = 400;
 
   vr::Family f1, f2, f2b, f3, f3b, f4, f5, f6;
